@@ -75,6 +75,19 @@ SPECS = {
         "explanation": "Lifecycle specification (transcribed from the design document) with theorems for every state and call (PushPull only when attached, rejected call is a no-op, detached/removed/deactivated clients cannot write, removed is forever). The real RPC server is compared with the specification call by call (verdict, stored client/document status, number of stored changes) on all call sequences up to length 2 (quick) / 3 (thorough) over 2 client slots x 2 document keys plus seeded mostly-valid sequences of length 4-8; histories with detach/deactivate/re-attach are replayed through the protocol model, and the response vector must be exactly the minimum over the currently attached clients (a detached or deactivated client no longer holds back GC).",
         "assumptions": ["memory DB only; documents attached with presence disabled in the sequence engine"],
     },
+    "C13": {
+        "corr": ["Authz"],
+        "exhaustive": True,
+        "engines": [
+            {"name": "authz", "n": {"quick": 1, "thorough": 1}},
+        ],
+        "explanation": "Theorems over the project-scoped store: for every database, request and YorkieService procedure, serving a request leaves every other project's rows unchanged (integrity) and its response is a function of the caller's own project's rows only (a foreign id is answered like a nonexistent one); this holds for every program written against the scoped primitives and the checked global lookup, and the handlers are such programs; identical keys in two projects are different objects; the credential gate refuses Admin calls without token/secret key and Cluster calls without the cluster secret. Engine: a real server with attacker, victim and control projects; every procedure of the three services (enumerated from the generated descriptors) x credentials {none, garbage, attacker's} x every subset of id-typed request fields taken from the victim; oracles: the victim's rows in every memdb table and its channel sessions are byte-identical afterwards, the connect code equals that of the same request with nonexistent ids, no response contains victim data, calls without a valid credential are refused; the same request shapes with the control project's own credential and ids must be live. Observed verdicts, database-layer lookups over the (project, owner) matrix, gate verdicts and the classification of every procedure are judged by the model.",
+        "assumptions": [
+            "PARTIAL: Admin and Cluster handlers are modelled by the credential gate only; their isolation (project membership, secret-key project) is decided by the engine's oracles, not by a theorem",
+            "error messages are not compared (upstream's not-found messages differ between a foreign and an unknown client id; the property's observable is the connect code)",
+            "webhook authorisation (auth.VerifyAccess) is off in the scenario; memory database only",
+        ],
+    },
     "C04": {
         "corr": ["Proto"],
         "engines": [
